@@ -395,7 +395,7 @@ NAMES = {'cin': 'input channels', 'cout': 'output channels', 'k0': 'kernel size 
 
 
 # -- R16b ------------------------------------------------------------------------------------
-def r16b(ctx):
+def r16b(ctx, rule: str = 'R16b', only=None):
     repo = ctx.repo
     A, B = ('param', 'a'), ('param', 'b')
     idioms = {
@@ -412,6 +412,8 @@ def r16b(ctx):
     for c in sorted(repo.classes.values(), key=lambda c: c.qualname):
         if c.name not in expected or not c.module.name.startswith('plinio.cost'):
             continue
+        if only is not None and c.module.name.split('.')[-1] not in only:
+            continue
         n += 1
         fwd, bwd = c.methods.get('forward'), c.methods.get('backward')
         if fwd is None or bwd is None:
@@ -420,7 +422,7 @@ def r16b(ctx):
         want = idioms[expected[c.name]](x, nn_)
         for p in returning(paths(repo, fwd)):
             ok = same_formula(p.retval, want)
-            ctx.ob('R16b', f'{c.module.name.split(".")[-1]}.{c.name}.forward', ok,
+            ctx.ob(rule, f'{c.module.name.split(".")[-1]}.{c.name}.forward', ok,
                    f'exact integer idiom {expected[c.name]}' if ok else
                    f'forward computes {short(p.retval)}; expected the exact '
                    f'{expected[c.name]} of its two arguments', where(fwd))
@@ -429,7 +431,7 @@ def r16b(ctx):
             g = ('param', bwd.params[1])
             ok = r[0] == 'tuple' and len(r[1]) == len(fwd.params) - 1 and r[1][0] == g and \
                 all(y == NONE for y in r[1][1:])
-            ctx.ob('R16b', f'{c.module.name.split(".")[-1]}.{c.name}.backward', ok,
+            ctx.ob(rule, f'{c.module.name.split(".")[-1]}.{c.name}.backward', ok,
                    'gradient passed straight through to the size argument' if ok else
                    f'backward returns {short(r)}: expected (grad_output, None) — one value per '
                    f'forward input, the size argument receiving the incoming gradient',
@@ -442,10 +444,13 @@ def r16b(ctx):
                 ('bin', '/', ('bin', '-', ('bin', '+', tx, tn), ('const', 1)), tn),), ())
             for p in returning(paths(repo, twin)):
                 ok = same_formula(p.retval, wantt)
-                ctx.ob('R16b', f'{c.module.name.split(".")[-1]}._floor twin', ok,
+                ctx.ob(rule, f'{c.module.name.split(".")[-1]}._floor twin', ok,
                        'plain twin computes the same ceil-div' if ok else
                        f'_floor computes {short(p.retval)}, which differs from FloorSTE.forward',
                        where(twin))
+    if only is not None:
+        ctx.floor(rule, 'rounding helpers', n, 3)
+        return
     ctx.floor('R16b', 'rounding helpers', n, 5)
     # every autograd.Function used on a cost path passes gradients (PIT / MPS ones in C12)
     gate = repo.cls('GateSTE')
@@ -456,7 +461,7 @@ def r16b(ctx):
         ok = mc is not None and mc[1] == 'float' and mc[0][0] == 'cmp' and \
             mc[0][1] in ('>=', '>') and mc[0][2] == ('param', fwd.params[1]) and \
             mc[0][3] == ('param', fwd.params[2])
-        ctx.ob('R16b', 'diana_latency.GateSTE.forward', ok,
+        ctx.ob(rule, 'diana_latency.GateSTE.forward', ok,
                'gate = (ch >= th)' if ok else f'gate computes {short(r)}', where(fwd))
 
 
@@ -478,6 +483,8 @@ def canon_int(t):
             return ('bin', '//', t[2][0][2], t[2][0][3])
         if c in ('torch.remainder',) and len(t[2]) == 2:
             return ('bin', '%', t[2][0], t[2][1])
+        if c in ('torch.as_tensor', 'torch.tensor') and len(t[2]) == 1 and not t[3]:
+            return t[2][0]
     return t
 
 
